@@ -160,6 +160,11 @@ def type_of(t, _depth=0):
             return 'bytes'
         if n == 'SLICE':
             return type_of(t[2])
+        if n == 'GETITEM' and len(t) == 4 and tag(t[2]) in ('tuple', 'list') and t[2][1] and _depth < 3:
+            # an element of a homogeneous table, whichever it is
+            tys = {type_of(x, _depth + 1) for x in t[2][1][:1024]}
+            if len(tys) == 1:
+                return next(iter(tys))
         if n in BYTES_OPS:
             return 'bytes'
         if n in STR_OPS:
